@@ -160,6 +160,50 @@ fn group_a(cat: &mut Catalogue, tier: Tier) {
             }
         }
     }
+    if tier == Tier::Thorough {
+        // structured triples: two knobs on one field + one container knob, and two container
+        // knobs + one field knob (three attributes interacting on the same datum)
+        let container: Vec<Knob> = ks.iter().copied().filter(|k| matches!(k, Knob::RenameAll(_) | Knob::Deny(_) | Knob::Validate)).collect();
+        let field_of = |k: &Knob| -> Option<usize> {
+            match k {
+                Knob::Rename(i) | Knob::DefaultTrait(i) | Knob::DefaultExpr(i) | Knob::Skip(i) | Knob::Map(i) | Knob::MissingFn(i) | Knob::ErrB(i) | Knob::Optional(i) => Some(*i),
+                Knob::Conv(i, _) => Some(*i),
+                _ => None,
+            }
+        };
+        let mut n = 0usize;
+        for (a, &k1) in ks.iter().enumerate() {
+            let Some(f1) = field_of(&k1) else { continue };
+            for &k2 in &ks[a + 1..] {
+                if field_of(&k2) != Some(f1) {
+                    continue;
+                }
+                for &k3 in &container {
+                    let Some(s3) = apply(base.clone(), k1).and_then(|s| apply(s, k2)).and_then(|s| apply(s, k3)) else { continue };
+                    let mut s3 = s3;
+                    n += 1;
+                    s3.style = (n % 4) as u8;
+                    let i = cat.add(Item::Struct(s3));
+                    cat.root(p(Ty::Item(i)), "A", format!("{k1:?}+{k2:?}+{k3:?}"));
+                }
+            }
+        }
+        for (a, &c1) in container.iter().enumerate() {
+            for &c2 in &container[a + 1..] {
+                for &k in &ks {
+                    if field_of(&k).is_none() {
+                        continue;
+                    }
+                    let Some(s3) = apply(base.clone(), c1).and_then(|s| apply(s, c2)).and_then(|s| apply(s, k)) else { continue };
+                    let mut s3 = s3;
+                    n += 1;
+                    s3.style = (n % 4) as u8;
+                    let i = cat.add(Item::Struct(s3));
+                    cat.root(p(Ty::Item(i)), "A", format!("{c1:?}+{c2:?}+{k:?}"));
+                }
+            }
+        }
+    }
     if tier == Tier::Quick {
         // a few hand-picked pairs that interact (the thorough tier has all pairs)
         let pairs: &[(Knob, Knob)] = &[
